@@ -220,3 +220,158 @@ Qed.
 (* the guard is satisfiable (non-vacuity): alpha = 3, beta = 3, gamma = 3 gives mu < 1 *)
 Lemma mhn_normal_guard_example : (3 - 2) * ln (mhn_mu 3 3 3) <= 0.
 Proof. unfold mhn_mu. interval. Qed.
+
+(* ================= deepening round ================= *)
+(* ---------------- InverseGamma ---------------- *)
+Lemma Rpower_pos x y : 0 < Rpower x y. Proof. unfold Rpower. apply exp_pos. Qed.
+
+Lemma Rpower_div_base x s y : 0 < x -> 0 < s -> Rpower (x / s) y = Rpower x y * Rpower s (- y).
+Proof.
+  intros Hx Hs. unfold Rpower, Rdiv. rewrite ln_mult by (try apply Rinv_0_lt_compat; assumption).
+  rewrite ln_Rinv by exact Hs. rewrite <- exp_plus. f_equal. ring.
+Qed.
+
+(* scipy's loc/scale inverse-gamma density (what rvs draws from and what the class's logpdf evaluates) is the density
+   the class documents *)
+Theorem wiring_invgamma Gam a loc scale x : 0 < scale -> loc < x -> Gam <> 0 ->
+  sp_invgamma_pdf Gam a loc scale x = cuqi_invgamma_pdf Gam a loc scale x.
+Proof.
+  intros Hs Hx HG. unfold sp_invgamma_pdf, sp_invgamma_std_pdf, cuqi_invgamma_pdf.
+  assert (Hd : 0 < x - loc) by lra.
+  rewrite Rpower_div_base by assumption.
+  replace (- 1 / ((x - loc) / scale)) with (- scale / (x - loc)) by (field; lra).
+  replace (- (- a - 1)) with (a + 1) by ring. rewrite Rpower_plus, Rpower_1 by exact Hs.
+  rewrite Rpower_Ropp. pose proof (Rpower_pos scale a). field. repeat split; lra.
+Qed.
+
+(* ... and it is the density of loc + scale / G for G ~ Gamma(a, 1) (how scipy generates it): the distribution function of
+   X is x |-> 1 - F_G(scale / (x - loc)); its derivative is the standard gamma density at scale/(x-loc) times scale/(x-loc)^2,
+   which is the same number *)
+Lemma invgamma_change_of_variables (F f : R -> R) loc scale x :
+  (forall g, is_derive F g (f g)) -> loc < x ->
+  is_derive (fun t => 1 - F (scale / (t - loc))) x (f (scale / (x - loc)) * (scale / (x - loc) ^ 2)).
+Proof.
+  intros HF Hx.
+  assert (Hi : is_derive (fun t => scale / (t - loc)) x (- (scale / (x - loc) ^ 2))).
+  { auto_derive; [lra | field; lra]. }
+  pose proof (is_derive_comp F (fun t => scale / (t - loc)) x _ _ (HF _) Hi) as Hc.
+  pose proof (is_derive_opp _ _ _ Hc) as Ho.
+  pose proof (is_derive_plus _ _ _ _ _ (is_derive_const 1 x) Ho) as Hp.
+  replace (f (scale / (x - loc)) * (scale / (x - loc) ^ 2))
+    with (plus (@zero R_NormedModule) (opp (scal (- (scale / (x - loc) ^ 2)) (f (scale / (x - loc))))))
+    by (unfold plus, opp, scal, zero; simpl; unfold mult; simpl; ring).
+  exact Hp.
+Qed.
+
+Theorem invgamma_rvs_density Gam a loc scale x : 0 < scale -> loc < x -> Gam <> 0 ->
+  std_gamma_pdf Gam a (scale / (x - loc)) * (scale / (x - loc) ^ 2) = cuqi_invgamma_pdf Gam a loc scale x.
+Proof.
+  intros Hs Hx HG. unfold std_gamma_pdf, cuqi_invgamma_pdf. assert (Hd : 0 < x - loc) by lra.
+  set (L := ln (x - loc)). set (S := ln scale).
+  assert (Hq : 0 < scale / (x - loc)) by (apply Rdiv_lt_0_compat; assumption).
+  assert (E1 : Rpower (scale / (x - loc)) (a - 1) = exp ((a - 1) * (S - L))).
+  { unfold Rpower. f_equal. f_equal. unfold S, L. apply ln_div; assumption. }
+  assert (E2 : scale / (x - loc) ^ 2 = exp (S - (L + L))).
+  { unfold Rminus. rewrite exp_plus, exp_Ropp, exp_plus. unfold S, L. rewrite !exp_ln by assumption. field. lra. }
+  assert (E3 : Rpower (x - loc) (- a - 1) = exp ((- a - 1) * L)) by reflexivity.
+  assert (E4 : / (Rpower scale (- a)) = exp (a * S)).
+  { unfold Rpower. fold S. rewrite <- exp_Ropp. f_equal. ring. }
+  replace (- (scale / (x - loc))) with (- scale / (x - loc)) by (field; lra).
+  rewrite E1, E2, E3.
+  replace (exp ((- a - 1) * L) * exp (- scale / (x - loc)) / (Rpower scale (- a) * Gam))
+    with (exp ((- a - 1) * L) * exp (- scale / (x - loc)) * / (Rpower scale (- a)) / Gam)
+    by (field; split; [exact HG | apply Rgt_not_eq, Rpower_pos]).
+  rewrite E4.
+  replace (exp ((a - 1) * (S - L)) * exp (- scale / (x - loc)) / Gam * exp (S - (L + L)))
+    with (exp ((a - 1) * (S - L)) * exp (S - (L + L)) * exp (- scale / (x - loc)) / Gam) by (field; exact HG).
+  replace (exp ((- a - 1) * L) * exp (- scale / (x - loc)) * exp (a * S) / Gam)
+    with (exp ((- a - 1) * L) * exp (a * S) * exp (- scale / (x - loc)) / Gam) by (field; exact HG).
+  rewrite <- !exp_plus. f_equal. f_equal. f_equal. ring.
+Qed.
+
+(* ---------------- Beta ---------------- *)
+Theorem wiring_beta Ga Gb Gab Bab a b x : Ga <> 0 -> Gb <> 0 -> Gab <> 0 -> Bab = Ga * Gb / Gab ->
+  sp_beta_pdf Bab a b x = cuqi_beta_pdf Ga Gb Gab a b x.
+Proof. intros H1 H2 H3 ->. unfold sp_beta_pdf, cuqi_beta_pdf. field. repeat split; assumption. Qed.
+
+(* ---------------- MHN scheme 3 (gamma <= 0) ---------------- *)
+(* convexity of exp, two points: w e^a + (1-w) e^b >= e^(w a + (1-w) b) *)
+Lemma exp_convex2 w a b : 0 <= w <= 1 -> exp (w * a + (1 - w) * b) <= w * exp a + (1 - w) * exp b.
+Proof.
+  intros Hw. set (c := w * a + (1 - w) * b).
+  assert (Ha : exp c * (1 + (a - c)) <= exp a).
+  { pose proof (exp_ineq1_le (a - c)) as H. replace (exp a) with (exp c * exp (a - c)) by (rewrite <- exp_plus; f_equal; ring).
+    apply Rmult_le_compat_l; [left; apply exp_pos | exact H]. }
+  assert (Hb : exp c * (1 + (b - c)) <= exp b).
+  { pose proof (exp_ineq1_le (b - c)) as H. replace (exp b) with (exp c * exp (b - c)) by (rewrite <- exp_plus; f_equal; ring).
+    apply Rmult_le_compat_l; [left; apply exp_pos | exact H]. }
+  assert (E : exp c = w * (exp c * (1 + (a - c))) + (1 - w) * (exp c * (1 + (b - c)))) by (unfold c; ring).
+  rewrite E. apply Rplus_le_compat; apply Rmult_le_compat_l; lra.
+Qed.
+
+(* the acceptance ratio of the gamma <= 0 scheme never exceeds 1, for EVERY matching point m > 0 (the code uses m = 1 or the
+   mode): with A = beta m^2, B = -gamma m, s = X/m:  (A+B) s^((2A+B)/(A+B)) <= A s^2 + B s  (weighted AM-GM) *)
+Theorem mhn_negative_gamma_acc_le_1 b g m t : 0 < b -> g <= 0 -> 0 < m -> 0 < t -> mhn_neg_logacc b g m t <= 0.
+Proof.
+  intros Hb Hg Hm Ht. unfold mhn_neg_logacc, mhn_neg_x, mhn_neg_v1, mhn_neg_v2.
+  set (A := b * m * m). set (B := - g * m).
+  assert (Hbm0 : 0 < b * m) by (apply Rmult_lt_0_compat; assumption).
+  assert (HA : 0 < A) by (unfold A; apply Rmult_lt_0_compat; assumption).
+  assert (HB : 0 <= B) by (unfold B; apply Rmult_le_pos; lra).
+  assert (Hbm : 0 < b * m - g) by lra. assert (H2 : 0 < 2 * b * m - g) by lra.
+  set (v1 := (b * m - g) / (2 * b * m - g)).
+  assert (Hv1 : 0 < v1) by (apply Rdiv_lt_0_compat; assumption).
+  set (u := v1 * ln t).
+  assert (Et : t = exp ((2 * b * m - g) / (b * m - g) * u)).
+  { unfold u, v1. replace ((2 * b * m - g) / (b * m - g) * ((b * m - g) / (2 * b * m - g) * ln t)) with (ln t) by (field; lra).
+    symmetry. apply exp_ln. exact Ht. }
+  assert (Ex : Rpower t v1 = exp u) by (unfold Rpower, u; reflexivity).
+  rewrite Ex.
+  replace (m * (b * m - g) * t - b * (m * exp u) * (m * exp u) + g * (m * exp u))
+    with ((A + B) * t - (A * (exp u * exp u) + B * exp u)) by (unfold A, B; ring).
+  rewrite <- exp_plus.
+  set (w := A / (A + B)). assert (Hw : 0 <= w <= 1).
+  { unfold w. split; [apply Rmult_le_pos; [lra | left; apply Rinv_0_lt_compat; lra] |].
+    apply (Rmult_le_reg_r (A + B)); [lra|]. unfold Rdiv. rewrite Rmult_assoc, Rinv_l by lra. lra. }
+  pose proof (exp_convex2 w (u + u) u Hw) as Hc.
+  assert (Ep : (2 * b * m - g) / (b * m - g) * u = w * (u + u) + (1 - w) * u).
+  { unfold w, A, B. field. split; nra. }
+  rewrite Et, Ep.
+  assert (Hs : A * exp (u + u) + B * exp u = (A + B) * (w * exp (u + u) + (1 - w) * exp u)).
+  { unfold w. field. lra. }
+  rewrite Hs. assert (0 < A + B) by lra. nra.
+Qed.
+
+(* proposal density x acceptance ratio is proportional to the target (the log-difference does not depend on x) *)
+Theorem mhn_negative_gamma_proportional lnGam a b g m x : 0 < b -> g <= 0 -> 0 < m -> 0 < x ->
+  mhn_neg_logg lnGam a b g m x + mhn_neg_logacc b g m (mhn_neg_t b g m x) - mhn_logf a b g x
+  = a * mhn_neg_v1 b g m * ln (mhn_neg_v2 b g m) - lnGam + ln (/ (mhn_neg_v1 b g m * m)) - (a - 1) * ln m.
+Proof.
+  intros Hb Hg Hm Hx. unfold mhn_neg_logg, mhn_neg_logacc, mhn_neg_x, mhn_logf. cbv zeta.
+  assert (Hbm0 : 0 < b * m) by (apply Rmult_lt_0_compat; assumption).
+  assert (Hbm : 0 < b * m - g) by lra. assert (H2 : 0 < 2 * b * m - g) by lra.
+  assert (Hv1 : 0 < mhn_neg_v1 b g m) by (unfold mhn_neg_v1; apply Rdiv_lt_0_compat; assumption).
+  assert (Hxm : 0 < x / m) by (apply Rdiv_lt_0_compat; assumption).
+  assert (Eback : m * Rpower (mhn_neg_t b g m x) (mhn_neg_v1 b g m) = x).
+  { unfold mhn_neg_t. rewrite Rpower_mult. replace (/ mhn_neg_v1 b g m * mhn_neg_v1 b g m) with 1 by (field; lra).
+    rewrite Rpower_1 by exact Hxm. field. lra. }
+  rewrite Eback.
+  assert (Elt : ln (mhn_neg_t b g m x) = / mhn_neg_v1 b g m * ln (x / m)) by (unfold mhn_neg_t; apply ln_Rpower).
+  rewrite Elt. assert (Elx : ln (x / m) = ln x - ln m) by (apply ln_div; assumption). rewrite Elx.
+  replace (x ^ 2) with (x * x) by ring. field. lra.
+Qed.
+
+(* the code's v1 lies in [1/2, 1) and v2 > 0, so that Gamma(a v1, rate v2) is a proper proposal *)
+Lemma mhn_neg_params b g m : 0 < b -> g <= 0 -> 0 < m ->
+  / 2 <= mhn_neg_v1 b g m < 1 /\ 0 < mhn_neg_v2 b g m.
+Proof.
+  intros Hb Hg Hm. unfold mhn_neg_v1, mhn_neg_v2.
+  assert (Hbm' : 0 < b * m) by (apply Rmult_lt_0_compat; assumption).
+  assert (Hbm : 0 < b * m - g) by lra. assert (H2 : 0 < 2 * b * m - g) by lra.
+  repeat split.
+  - apply (Rmult_le_reg_r (2 * b * m - g)); [lra|].
+    replace ((b * m - g) / (2 * b * m - g) * (2 * b * m - g)) with (b * m - g) by (field; lra). lra.
+  - apply (Rmult_lt_reg_r (2 * b * m - g)); [lra|].
+    replace ((b * m - g) / (2 * b * m - g) * (2 * b * m - g)) with (b * m - g) by (field; lra). lra.
+  - apply Rmult_lt_0_compat; assumption.
+Qed.
